@@ -29,7 +29,7 @@ import (
 var rec = ev.New("C05")
 
 type Call struct {
-	Entry string `json:"entry"` // decode entry, or hash:p64 | hash:p64alt | hash:p256 | hash:p256alt
+	Entry string `json:"entry"` // decode entry, or hash:p64 | hash:p64alt | hash:p256 | hash:p256alt | hash:ahash | hash:blur
 	In    int    `json:"in"`    // index into Inputs or Images
 }
 
@@ -40,6 +40,9 @@ type Case struct {
 	Plan   [][]Call     `json:"plan"` // per goroutine
 	Procs  int          `json:"gomaxprocs"`
 	Yield  bool         `json:"yield"`
+	// RefAfter: the sequential reference pass runs after the concurrent phase instead of before it, so that
+	// whatever the library initialises on first use is initialised by overlapping calls
+	RefAfter bool `json:"ref_after,omitempty"`
 }
 
 func runCall(c Call, inputs [][]byte, imgs []image.Image) string {
@@ -62,6 +65,12 @@ func runCall(c Call, inputs [][]byte, imgs []image.Image) string {
 			case "hash:p256":
 				h, err := imagehash.NewPHash256(img)
 				d = fmt.Sprintf("%016x err=%v", [4]uint64(h), err)
+			case "hash:ahash":
+				h, err := imagehash.NewAHash(img)
+				d = fmt.Sprintf("%v err=%v", h, err)
+			case "hash:blur":
+				h, err := imagehash.EncodeBlurHashFast(img)
+				d = fmt.Sprintf("%s err=%v", h, err)
 			default:
 				h, err := imagehash.NewPHash256Alt(img)
 				d = fmt.Sprintf("%016x err=%v", [4]uint64(h), err)
@@ -92,12 +101,17 @@ func eval(c Case) (f *pbt.Fail) {
 	}
 	// sequential reference: every distinct call once, alone
 	want := map[Call]string{}
-	for _, g := range c.Plan {
-		for _, cl := range g {
-			if _, ok := want[cl]; !ok {
-				want[cl] = runCall(cl, c.Inputs, imgs)
+	reference := func() {
+		for _, g := range c.Plan {
+			for _, cl := range g {
+				if _, ok := want[cl]; !ok {
+					want[cl] = runCall(cl, c.Inputs, imgs)
+				}
 			}
 		}
+	}
+	if !c.RefAfter {
+		reference()
 	}
 	// the concurrent phase starts from cold process-wide state (empty zone cache, fresh pools), like a fresh process would
 	exif2.VerifResetPools()
@@ -110,28 +124,30 @@ func eval(c Case) (f *pbt.Fail) {
 	defer runtime.GOMAXPROCS(old)
 	var wg sync.WaitGroup
 	start := make(chan struct{})
-	var mu sync.Mutex
-	var firstFail *pbt.Fail
-	var stamps []stamp
+	type obs struct {
+		cl         Call
+		got        string
+		start, end int64
+	}
+	// every goroutine records into its own slice: between the start barrier and the end of the plan the
+	// harness performs no synchronisation at all (a shared lock here would order the library's accesses
+	// for the race detector and hide races between calls that do not strictly overlap)
+	seen := make([][]obs, len(c.Plan))
 	for gi, g := range c.Plan {
 		wg.Add(1)
 		go func(gi int, g []Call) {
 			defer wg.Done()
+			mine := make([]obs, 0, len(g))
 			<-start
-			for ci, cl := range g {
+			for _, cl := range g {
 				t0 := time.Now().UnixNano()
 				got := runCall(cl, c.Inputs, imgs)
-				t1 := time.Now().UnixNano()
-				mu.Lock()
-				stamps = append(stamps, stamp{gi, cl.Entry, t0, t1})
-				if got != want[cl] && firstFail == nil {
-					firstFail = pbt.Failf("differs:"+cl.Entry, "goroutine %d call %d: %s on input #%d returned something else while %d goroutines ran than it does alone: %s", gi, ci, cl.Entry, cl.In, len(c.Plan), firstDiff(want[cl], got))
-				}
-				mu.Unlock()
+				mine = append(mine, obs{cl, got, t0, time.Now().UnixNano()})
 				if c.Yield {
 					runtime.Gosched()
 				}
 			}
+			seen[gi] = mine
 		}(gi, g)
 	}
 	done := make(chan struct{})
@@ -144,8 +160,26 @@ func eval(c Case) (f *pbt.Fail) {
 		n := runtime.Stack(buf, true)
 		return pbt.Failf("deadlock", "the plan (%d goroutines) did not finish within 120 s; goroutine dump:\n%s", len(c.Plan), buf[:n])
 	}
+	var stamps []stamp
+	for gi, m := range seen {
+		for _, o := range m {
+			stamps = append(stamps, stamp{gi, o.cl.Entry, o.start, o.end})
+		}
+	}
 	overlapped = overlap(stamps)
-	return firstFail
+	when := "alone beforehand"
+	if c.RefAfter {
+		reference()
+		when = "alone afterwards (its first use was inside this plan)"
+	}
+	for gi, m := range seen {
+		for ci, o := range m {
+			if o.got != want[o.cl] {
+				return pbt.Failf("differs:"+o.cl.Entry, "goroutine %d call %d: %s on input #%d returned something else while %d goroutines ran than it does %s: %s", gi, ci, o.cl.Entry, o.cl.In, len(c.Plan), when, firstDiff(want[o.cl], o.got))
+			}
+		}
+	}
+	return nil
 }
 
 var overlapped bool
@@ -196,6 +230,41 @@ func zones(rt *rapid.T, b []byte) []byte {
 	return b
 }
 
+var hashEntries = []string{"hash:p64", "hash:p64alt", "hash:p256", "hash:p256alt", "hash:ahash", "hash:blur"}
+
+// coldCase: the plan that runs first in every test process: 16 goroutines whose first calls are this
+// process's first use of every entry point (rotated so that each family is entered by several at once),
+// reference pass afterwards.
+func coldCase(seed int) Case {
+	c := rapid.Custom(genCase).Example(seed)
+	c.RefAfter, c.Procs, c.Yield = true, 16, false
+	c.Plan = nil
+	c.Images = []imgen.Spec{{Kind: "rgba", W: 64, H: 64, Content: "noise", Seed: uint32(seed), Ratio: "444"}, {Kind: "ycbcr", W: 64, H: 64, Content: "smooth", Seed: uint32(seed) + 1, Ratio: "420"}, {Kind: "gray", W: 256, H: 256, Content: "noise", Seed: uint32(seed) + 2, Ratio: "444"}}
+	var all []Call
+	for i := range c.Images {
+		for _, h := range hashEntries {
+			all = append(all, Call{Entry: h, In: i})
+		}
+	}
+	for i, k := range c.Kinds {
+		for _, e := range gen.EntriesFor(k) {
+			all = append(all, Call{Entry: e, In: i})
+		}
+		all = append(all, Call{Entry: "ItScan", In: i})
+	}
+	for g := 0; g < 16; g++ {
+		var calls []Call
+		for i := range all {
+			calls = append(calls, all[(i+(g/4)*7)%len(all)]) // four goroutines share each starting point
+		}
+		if len(calls) > 60 {
+			calls = calls[:60]
+		}
+		c.Plan = append(c.Plan, calls)
+	}
+	return c
+}
+
 func genCase(rt *rapid.T) Case {
 	var c Case
 	for i, n := 0, rapid.IntRange(4, 10).Draw(rt, "ninputs"); i < n; i++ {
@@ -216,6 +285,7 @@ func genCase(rt *rapid.T) Case {
 	}
 	c.Procs = rapid.SampledFrom([]int{1, 2, 4, 16, 32}).Draw(rt, "procs")
 	c.Yield = rapid.Bool().Draw(rt, "yield")
+	c.RefAfter = rapid.IntRange(0, 3).Draw(rt, "refafter") == 0
 	ng := rapid.SampledFrom([]int{2, 3, 4, 8, 16, 32, 64}).Draw(rt, "goroutines")
 	per := rapid.IntRange(5, 30).Draw(rt, "percall")
 	if ng*per > 640 {
@@ -231,7 +301,7 @@ func genCase(rt *rapid.T) Case {
 			case k == 7:
 				calls = append(calls, Call{Entry: rapid.SampledFrom([]string{"ItScan", "ItBuf", "ItReadAt", "ItScanBuf"}).Draw(rt, "sniff"), In: rapid.IntRange(0, len(c.Inputs)-1).Draw(rt, "in")})
 			default:
-				calls = append(calls, Call{Entry: rapid.SampledFrom([]string{"hash:p64", "hash:p64alt", "hash:p256", "hash:p256alt"}).Draw(rt, "hash"), In: rapid.IntRange(0, len(c.Images)-1).Draw(rt, "img")})
+				calls = append(calls, Call{Entry: rapid.SampledFrom(hashEntries).Draw(rt, "hash"), In: rapid.IntRange(0, len(c.Images)-1).Draw(rt, "img")})
 			}
 		}
 		c.Plan = append(c.Plan, calls)
@@ -264,11 +334,21 @@ func init() { pbt.Register(chk); pbt.CrashGuard = true }
 
 func TestProp(t *testing.T) {
 	defer rec.MustWrite()
-	rec.Rule("plans: 2-64 goroutines, each 5-30 calls (decoding through every entry point that fits the input, sniffing, the four perceptual hashes) over a pool of 4-10 inputs (samples, encoder output in every container with many distinct zone offsets so that the time-zone cache is written concurrently, XMP packets) and 1-3 images; GOMAXPROCS in {1,2,4,16,32}; start barrier; optional yields; the process-wide caches and pools are emptied (hook) between the sequential reference pass and the concurrent phase. " +
+	rec.Rule("plans: 2-64 goroutines, each 5-30 calls (decoding through every entry point that fits the input, sniffing, the four perceptual hashes, the average hash and the blurhash) over a pool of 4-10 inputs (samples, encoder output in every container with many distinct zone offsets so that the time-zone cache is written concurrently, XMP packets) and 1-3 images; GOMAXPROCS in {1,2,4,16,32}; start barrier; optional yields; the process-wide caches and pools are emptied (hook) between the sequential reference pass and the concurrent phase; in a quarter of the plans, and in the cold-start plan that every test process runs before anything else (16 goroutines x up to 60 calls whose first calls are the process's first use of every entry point), the reference pass runs after the concurrent phase, so that first-use initialisation happens under overlap. " +
 		"The binary is built with -race (halt_on_error): a reported data race ends the process and the driver reports the plan in flight. oracle inside the check: every call's digest equals the digest of the same call run alone beforehand; the plan finishes (120 s watchdog, nominal < 1 s). " +
 		"non-trivial = two goroutines were observed inside the same entry-point family at the same time (start/end stamps); distinct by plan")
 	rec.Assume("the Go scheduler, not the harness, owns the interleaving: the race detector makes data races independent of the schedule hit, an atomicity bug without a data race is found only if the schedule produces it")
 	rec.Assume("the logger configuration is process-wide by design and is not changed during a plan")
+	// first of all, while nothing of the library has run in this process: the cold-start plan
+	cold := coldCase(int(rec.Env.Seed%1000000)*64 + rec.Env.Shard + 1)
+	pbt.MarkInflight(rec, chk.Name, cold)
+	if f := evalCounted(cold); f != nil {
+		rec.Class("cold-start-plan", 1)
+		if pbt.Report(t, rec, chk.Name, cold, f) {
+			return
+		}
+	}
+	rec.Class("cold-start-plan", 1)
 	pbt.RegressDir(t, rec)
 	pbt.Run(t, rec, chk, rec.Env.Pick(60, 1500), 1)
 }
